@@ -62,3 +62,7 @@ pub mod validation;
 
 // Invariant PPT testing framework
 pub mod invariant_ppt;
+
+// Verification hooks (state snapshots, narrowing-cast events); off by default.
+#[cfg(feature = "verif")]
+pub mod verif;
